@@ -132,7 +132,16 @@ def probe_job(text, probes, family):
     for pr in probes:
         name, val, kind = pr['name'], pr['value'], pr['kind']
         C.reset()
-        res = runner.run_text(text + f'\n{name}, {_fmt(val)}\n', want_snap=False, stop_after_read=True)
+        final = {}
+
+        def at_end_of_read(stage, model, name=name, final=final):
+            # value standing in the parameter object the reader wrote to, once every module has finished reading
+            if stage == 'after_read':
+                for e in C.READ_EVENTS:
+                    if e['key'] == name and e.get('obj') is not None:
+                        final['value'] = e['obj'].value
+        res = runner.run_text(text + f'\n{name}, {_fmt(val)}\n', want_snap=False, stop_after_read=True,
+                              callbacks=(at_end_of_read,))
         evs = [e for e in C.READ_EVENTS if e['key'] == name]
         in_domain = kind in ('min', 'max')
         wit = {'family': family, 'parameter': name, 'value': val, 'kind': kind, 'domain': pr['dom'],
@@ -161,6 +170,45 @@ def probe_job(text, probes, family):
                 is_default = False
             if after_f == newv:
                 mon.ok('bound-used')
+                # ... and the module's own special-case code after the reader must not replace it either
+                if 'value' in final and not isinstance(final['value'], list):
+                    try:
+                        fin = float(getattr(final['value'], 'int_value', final['value']))
+                    except (TypeError, ValueError):
+                        fin = None
+                    scale = RESCALED.get(name)
+                    okf = fin is not None and (fin == newv or (scale is not None and abs(fin - newv * scale) <= 1e-9 * abs(fin)))
+                    if okf:
+                        mon.ok('bound-stands-after-read-phase')
+                    else:
+                        # is the bound treated differently from its interior neighbour (bounds made exclusive by module
+                        # code), or does a configuration rule override every value of this parameter?
+                        dom = pr['dom']
+                        if dom['kind'] == 'int':
+                            inner = val + 1 if kind == 'min' else val - 1
+                        else:
+                            inner = val + 1e-3 * (dom['max'] - dom['min']) if kind == 'min' else val - 1e-3 * (dom['max'] - dom['min'])
+                        fin2 = {}
+
+                        def at_end2(stage, model, name=name, fin2=fin2):
+                            if stage == 'after_read':
+                                for e in C.READ_EVENTS:
+                                    if e['key'] == name and e.get('obj') is not None:
+                                        fin2['value'] = e['obj'].value
+                        C.reset()
+                        runner.run_text(text + f'\n{name}, {_fmt(inner)}\n', want_snap=False, stop_after_read=True, callbacks=(at_end2,))
+                        try:
+                            f2 = float(getattr(fin2.get('value'), 'int_value', fin2.get('value')))
+                        except (TypeError, ValueError):
+                            f2 = None
+                        inner_stands = f2 is not None and (f2 == float(inner) or (scale is not None and abs(f2 - inner * scale) <= 1e-9 * abs(f2)))
+                        if inner_stands or f2 is None:
+                            mon.bad('bound-stands-after-read-phase', mechanism='C07/accepted-bound-replaced-by-module-code-after-the-reader',
+                                    standing_value=fin, interior_probe=inner, interior_standing=f2, **wit)
+                        else:
+                            mon.bad('bound-stands-after-read-phase',
+                                    mechanism=f'C07/in-range-value-overridden-by-configuration-rule:{name}:{pr["dom"].get("module")}',
+                                    standing_value=fin, interior_probe=inner, interior_standing=f2, **wit)
             elif is_default and ev['cls'] == 'intParameter':
                 mon.bad('bound-used', mechanism='C07/int-equal-to-DefaultValue-skipped-although-working-value-differs',
                         working_value=after_f, **wit)
@@ -183,6 +231,114 @@ def probe_job(text, probes, family):
         if len(out_samples) < 3:
             out_samples.append(wit)
     return {'mon': mon.dump(), 'samples': out_samples, 'n': len(probes), 'counts': dict(C.COUNTS)}
+
+
+HIP_BASE = ('Reservoir Temperature, 250.0\nRejection Temperature, 60.0\nReservoir Porosity, 10.0\nReservoir Area, 55.0\n'
+            'Reservoir Thickness, 0.25\nReservoir Life Cycle, 25\n')
+
+
+def hip_declarations():
+    """Live declarations of the heat-in-place program (it has no hook: the object is built the way its main() does)."""
+    from .. import observe
+    import hip_ra_x.hip_ra_x as H
+    cwd = os.getcwd()
+    try:
+        m = H.HIP_RA_X(enable_hip_ra_logging_config=False)
+    finally:
+        os.chdir(cwd)
+    return {'hip_ra_x': {'class': type(m).__name__,
+                         'params': {k: observe.snap_param(v) for k, v in m.ParameterDict.items() if observe._is_param(v)}}}
+
+
+def hip_probe_job(probes, family='hip-ra-x'):
+    """Probes of the heat-in-place program through its real main() (ReadParameter wrapper attached to its alias) and,
+    for the API-level clauses, through the real HipRaXClient."""
+    import contextlib
+    import io
+    import logging
+    import sys
+    import tempfile
+    from pathlib import Path
+    from .. import contracts as C
+    from ..verdict import Mon
+    from .c17 import run_hip
+    C.attach()
+    mon = Mon('C07')
+    samples = []
+    for pr in probes:
+        name, val, kind = pr['name'], pr['value'], pr['kind']
+        C.reset()
+        res = run_hip(HIP_BASE + f'{name}, {_fmt(val)}\n')
+        evs = [e for e in C.READ_EVENTS if e['key'] == name]
+        in_domain = kind in ('min', 'max')
+        err = res['error'] or ''
+        wit = {'family': family, 'parameter': name, 'value': val, 'kind': kind, 'domain': pr['dom'], 'outcome': err[:200]}
+        if not evs:
+            mon.bad('reaches-reader', mechanism='C07/parameter-never-routed-through-the-reader', **wit)
+            continue
+        mon.ok('reaches-reader')
+        ev = evs[-1]
+        range_err = 'outside of valid range' in err and name in err
+        if in_domain:
+            if range_err:
+                mon.bad('bound-accepted', mechanism='C07/documented-bound-rejected', **wit)
+                continue
+            if ev['raised'] is not None:
+                mon.note('in-domain-probe-failed-otherwise:' + str(ev['raised']))
+                continue
+            mon.ok('bound-accepted')
+            after = ev.get('after')
+            after_f = float(getattr(after, 'int_value', after)) if after is not None else None
+            dflt = ev.get('default')
+            try:
+                is_default = dflt is not None and float(getattr(dflt, 'int_value', dflt)) == float(val)
+            except (TypeError, ValueError):
+                is_default = False
+            if after_f == float(val):
+                mon.ok('bound-used')
+            elif is_default and ev['cls'] == 'intParameter':
+                mon.bad('bound-used', mechanism='C07/int-equal-to-DefaultValue-skipped-although-working-value-differs',
+                        working_value=after_f, **wit)
+            else:
+                mon.bad('bound-used', mechanism='C07/accepted-value-not-used-as-given', after=after_f, **wit)
+        else:
+            if ev['raised'] is None:
+                after = ev.get('after')
+                try:
+                    after_f = float(getattr(after, 'int_value', after))
+                except (TypeError, ValueError):
+                    after_f = None
+                sym = 'used-as-given' if after_f == float(val) else ('replaced-or-kept' if after_f is not None else '?')
+                mon.bad('out-of-range-rejected', mechanism='C07/out-of-range-value-accepted:' + sym, after=after_f, **wit)
+            else:
+                mon.ok('out-of-range-rejected')
+                mon.check('error-names-parameter', name in err, mechanism='C07/rejection-does-not-name-the-parameter', **wit)
+                mon.check('no-report', res['report'] is None, mechanism='C07/report-produced-for-a-rejected-input', **wit)
+                # the same probe through the real client: a RuntimeError naming the parameter, no result object
+                from hip_ra import HipRaInputParameters
+                from hip_ra_x import HipRaXClient
+                cerr = None
+                logging.disable(logging.CRITICAL)
+                try:
+                    with contextlib.redirect_stdout(io.StringIO()), contextlib.redirect_stderr(io.StringIO()):
+                        params = dict(ln.split(', ', 1) for ln in HIP_BASE.strip().split('\n'))
+                        params[name] = _fmt(val)
+                        HipRaXClient().get_hip_ra_result(HipRaInputParameters(params))
+                except RuntimeError as ex:
+                    cerr = str(ex)
+                except BaseException as ex:  # noqa
+                    cerr = 'UNWRAPPED ' + type(ex).__name__ + ': ' + str(ex)
+                finally:
+                    logging.disable(logging.NOTSET)
+                if cerr is None:
+                    mon.bad('api-out-of-range-rejected', mechanism='C07/out-of-range-value-accepted:api', **wit)
+                else:
+                    mon.ok('api-out-of-range-rejected')
+                    mon.check('api-error-names-parameter', name in cerr and not cerr.startswith('UNWRAPPED'),
+                              mechanism='C07/rejection-does-not-name-the-parameter', client_error=cerr[:200], **wit)
+        if len(samples) < 3:
+            samples.append(wit)
+    return {'mon': mon.dump(), 'samples': samples, 'n': len(probes), 'counts': dict(C.COUNTS)}
 
 
 def api_job(text, probe, family):
@@ -296,6 +452,11 @@ def run(ctx):
             take_a = acc[:ctx.pick(30, len(acc))]
             for p in take_r + take_a:
                 api_jobs.append({'fn': 'gxv.props.c07:api_job', 'args': {'text': text, 'probe': p, 'family': fam}, 'timeout': 300})
+    # the heat-in-place program (anchored in the property: src/hip_ra_x/hip_ra_x.py) is a family of its own
+    hp = make_probes(hip_declarations(), {})
+    nprobes['hip-ra-x'] = len(hp)
+    for i in range(0, len(hp), 12):
+        jobs.append({'fn': 'gxv.props.c07:hip_probe_job', 'args': {'probes': hp[i:i + 12], 'family': 'hip-ra-x'}, 'timeout': 600})
     total = 0
     with Pool(16) as pool:
         for r in pool.map(jobs + api_jobs, timeout=600):
@@ -320,14 +481,14 @@ def run(ctx):
                 case = {'job_fn': r.job['fn'], 'family': a['family'], 'probe': a['probe']}
             ctx.mon.merge(v['mon'], case=case)
     ctx.coverage['probes_per_family'] = nprobes
-    ctx.coverage['families'] = fams
+    ctx.coverage['families'] = fams + ['hip-ra-x']
     ctx.coverage['api_level_probes'] = len(api_jobs)
     ctx.exhaustive = True
     ctx.required.update({'reaches-reader': 1500, 'bound-accepted': 600, 'bound-used': 600, 'out-of-range-rejected': 600,
                          'error-names-parameter': 600, 'api-out-of-range-rejected': 20, 'api-no-report': 20,
                          'api-bound-accepted': 20})
     ctx.rule = ('for each configuration family (shipped example bases: standard reservoir models 0-5, heat pump, chiller, '
-                'district heating, add-ons, S-DAC-GT, overpressure, multi-segment, SUTRA, AGS-Wanju, SBT) every float and '
+                'district heating, add-ons, S-DAC-GT, overpressure, multi-segment, SUTRA, AGS-Wanju, SBT; plus the HIP-RA-X program) every float and '
                 'integer parameter offered to the reader is probed at {just below min, min, max, just above max, non-member '
                 'option} (the out-of-range DefaultValue sentinel excluded); the per-family product is enumerated completely '
                 '(exhaustive for the families listed); distinct = (family, parameter, probe kind); every probe is '
@@ -345,9 +506,11 @@ def replay(ctx, payload):
     case = payload.get('case') or {}
     w = payload.get('witness') or {}
     fam = case.get('family') or w.get('family')
-    text = base_text(fam)
+    text = base_text(fam) if fam != 'hip-ra-x' else None
     pr = case.get('probe') or {'name': w['parameter'], 'value': w['value'], 'kind': w['kind'], 'dom': w.get('domain', {})}
-    if case.get('job_fn', '').endswith('api_job'):
+    if fam == 'hip-ra-x':
+        v = hip_probe_job([pr], fam)
+    elif case.get('job_fn', '').endswith('api_job'):
         v = api_job(text, pr, fam)
     else:
         v = probe_job(text, [pr], fam)
